@@ -143,10 +143,12 @@ class BaseMySensorsProtocol(serial.threaded.LineReader):
         """Call connection lost callbacks."""
         if self.gateway.on_conn_lost is not None:
             self.gateway.on_conn_lost(self.gateway, exc)
+        # Forget the lost connection before a reconnect is started: the new
+        # connection may be made from another thread at any time.
+        self.transport = None
         if exc:
             _LOGGER.error(exc)
             self.conn_lost_callback()
-        self.transport = None
 
 
 class AsyncMySensorsProtocol(BaseMySensorsProtocol, asyncio.Protocol):
